@@ -247,4 +247,54 @@ def Store.apply (s : Store) (r : Record) : Store :=
 /-- deliver a list of records in order -/
 def Store.replay (s : Store) (rs : List Record) : Store := rs.foldl Store.apply s
 
+/-! ### commit protocol of one promotion (`blockCommit`) and start-up recovery, record granularity
+
+  blockCommit(h):  batch := [block, height index, accounts…]
+    1. `PutBatch`: `emptyFile` (tmp.data removed + recreated when nothing is pending), append the
+       encoded batch at `Offset`, fsync                          — store/file_queue.go:291
+    2. each item is handed to the async writer (`SyncFileDB.start`): bitcask file, LevelDB position,
+       per-bitcask cursor, `After` hook                          — store/sync_file_db.go:70
+    3. `SetCurrentBlock(h)`                                      — store/chain_database.go:280
+    4. `Context.Flush()` (candidates; harness only)
+  Start-up: `FileQueue.Start` rescans tmp.data from 0 and redelivers every record; the stable
+  pointer is read as it is (`ChainDatabase.AfterScan`, which would move it, is never called).
+  A torn *record* is the byte level's business (`scan_torn_*`); here a crash leaves whole records. -/
+
+structure Disk where
+  wal : List Record      -- complete records in tmp.data
+  kv : Store             -- bitcask files + position index
+  stable : Nat           -- LEMO-CURRENT-BLOCK, as a height
+  
+structure Promotion where
+  height : Nat
+  batch : List Record
+
+/-- where the process dies during `blockCommit` of a promotion -/
+inductive CrashPoint where
+  | before                          -- before PutBatch touches anything
+  | walReset                        -- inside emptyFile: tmp.data emptied, nothing appended yet
+  | appending (j : Nat)             -- during the append: the first `j` records of the batch are in the file
+  | committed (a : Nat) (moved : Bool)
+      -- fsync returned (whole batch in tmp.data); the async writer has stored the first `a` records;
+      -- `moved`: SetCurrentBlock has been executed
+  deriving Repr
+
+/-- durable state left behind by a crash at `cp` while promoting `p` on top of the quiescent disk `d` -/
+def crashState (d : Disk) (p : Promotion) : CrashPoint → Disk
+  | .before => d
+  | .walReset => { d with wal := [] }
+  | .appending j => { d with wal := p.batch.take j }
+  | .committed a moved =>
+    { wal := p.batch, kv := d.kv.replay (p.batch.take a), stable := if moved then p.height else d.stable }
+
+/-- the start-up sequence: redeliver the whole write-ahead file; the pointer is read as stored -/
+def recover (d : Disk) : Disk := { d with kv := d.kv.replay d.wal }
+
+/-- the state of a node that never stopped, after the promotion completed and the queue drained -/
+def completed (d : Disk) (p : Promotion) : Disk :=
+  { wal := p.batch, kv := d.kv.replay p.batch, stable := p.height }
+
+/-- what the property's observables can see: the key/value contents and the stable pointer -/
+def Disk.sameView (a b : Disk) : Prop := a.kv = b.kv ∧ a.stable = b.stable
+
 end LemoModel.Wal
